@@ -548,3 +548,18 @@ def inflate_position(ctx: Ctx):
                            "between the two raw dimensions of an MR / array column the inflated cube is read as MR x CAT instead of CAT x MR")
     if not found:
         ctx.undecided("inflate-position", "cube.py::Cube.inflate", "no dimensions.insert(position, dimension) call found", "position 0")
+
+
+def dispatch_dimension_uses(ctx: Ctx, rule: str = "dispatch-dimensions"):
+    """Which dimensions of the cube the matrix factories dispatch on: the LAST TWO (rows, columns of the slice) - positive
+    evidence of another slice of `cube.dimension_types` (`[0]`, `[1]`, `[:2]`: table and rows of a 3-D cube) is a violation."""
+    from ..exprdiff import alpha
+
+    for b in ("_BaseCubeCounts", "_BaseCubeMeans", "_BaseCubeMedians", "_BaseCubeStdDev", "_BaseCubeSums", "_BaseUnconditionalCubeCounts"):
+        ci = ctx.repo.cls(MCM, b)
+        body = LY.factory_body(ctx, ci)
+        where = f"{MCM}::{b}.factory"
+        uses = [u(n) for n in ast.walk(body) if isinstance(n, ast.Subscript) and u(n.value) == "cube.dimension_types"]
+        dims_alt = "tuple((_b0.dimension_type for _b0 in dimensions))" in u(alpha(body))
+        ok = (all(x == "cube.dimension_types[-2:]" for x in uses)) if uses else (True if dims_alt else None)
+        ctx.ob(rule, where, uses or ("slice dimensions" if dims_alt else "none"), "cube.dimension_types[-2:] (or the slice's own two dimensions)", ok, "rows x columns kinds are those of the LAST two dimensions")
